@@ -58,8 +58,28 @@ def random_cell(rng, kind=None):
     if kind == "triclinic":
         while True:
             al, be, ga = ang(), ang(), ang()
+            # coincidences between parameters that do not make the cell any more symmetric: two equal angles, two equal lengths,
+            # one right angle
+            co = rng.choice(["none", "none", "none", "al=ga", "al=be", "be=ga", "al=90", "ga=90", "a=b", "b=c", "al=ga,a=c"])
+            if "al=ga" in co:
+                ga = al
+            elif co == "al=be":
+                be = al
+            elif co == "be=ga":
+                ga = be
+            elif co == "al=90":
+                al = math.pi / 2
+            elif co == "ga=90":
+                ga = math.pi / 2
             if gram(al, be, ga) >= 1e-3:
-                return kind, (L(), L(), L(), al, be, ga)
+                a_, b_, c_ = L(), L(), L()
+                if co == "a=b":
+                    b_ = a_
+                elif co == "b=c":
+                    c_ = b_
+                elif co.endswith("a=c"):
+                    c_ = a_
+                return kind, (a_, b_, c_, al, be, ga)
     if kind == "monoclinic":
         return kind, (L(), L(), L(), math.pi / 2, ang(), math.pi / 2)
     if kind == "rhombohedral":
@@ -200,6 +220,33 @@ def build_variants(kind, prm):
          ("triclinic(degrees)", lambda: UnitCell.triclinic(a, b, c, *deg([al, be, ga]), unit="degrees")),
          ("from_unique_parameters(triclinic)", lambda: UnitCell.from_unique_parameters((a, b, c, al, be, ga), cell_type="triclinic")),
          ("UnitCell(vectors)", lambda: UnitCell(np.array(UnitCell.from_lengths_and_angles([a, b, c], [al, be, ga]).direct)))]
+    # the same lattice in other orientations (the geometry of a cell does not depend on how it sits in the Cartesian frame): half
+    # turns about the axes keep the matrix triangular but flip signs on the diagonal; a general rotation fills it
+    import random as _random
+    std = lambda: np.array(UnitCell.from_lengths_and_angles([a, b, c], [al, be, ga]).direct, dtype=float)
+    q = np.array([_random.Random(int(a * 1e6) + k).gauss(0, 1) for k in range(4)])
+    q /= np.linalg.norm(q)
+    w, x, y, z = q
+    Q = np.array([[1 - 2 * (y * y + z * z), 2 * (x * y - z * w), 2 * (x * z + y * w)], [2 * (x * y + z * w), 1 - 2 * (x * x + z * z), 2 * (y * z - x * w)],
+                  [2 * (x * z - y * w), 2 * (y * z + x * w), 1 - 2 * (x * x + y * y)]])
+    v += [("UnitCell(vectors turned 180 deg about x)", lambda: UnitCell(std() @ np.diag([1.0, -1.0, -1.0]))),
+          ("UnitCell(vectors turned 180 deg about y)", lambda: UnitCell(std() @ np.diag([-1.0, 1.0, -1.0]))),
+          ("UnitCell(vectors turned 180 deg about z)", lambda: UnitCell(std() @ np.diag([-1.0, -1.0, 1.0]))),
+          ("UnitCell(vectors in a general orientation)", lambda: UnitCell(std() @ Q.T))]
+
+    def respecified():
+        u = UnitCell.cubic(3.0 + a)
+        u.volume(), u.a_star, u.reciprocal_lattice      # an existing cell that has already been asked about ...
+        u.set_vectors(std() @ np.diag([-1.0, -1.0, 1.0]))  # ... is given other vectors
+        return u
+    v += [("set_vectors on an existing cell", respecified)]
+
+    def respecified2():
+        u = UnitCell(std() @ Q.T)
+        u.volume(), u.a_star
+        u.set_lengths_and_angles([a, b, c], [al, be, ga])
+        return u
+    v += [("set_lengths_and_angles on an existing cell", respecified2)]
     if kind == "monoclinic":
         v += [("monoclinic(radians)", lambda: UnitCell.monoclinic(a, b, c, be)),
               ("monoclinic(degrees)", lambda: UnitCell.monoclinic(a, b, c, deg(be), unit="degrees"))]
